@@ -8,6 +8,7 @@ variants of the file or manifest record that was in flight - is opened by a fres
 must equal the model of the acknowledged statements or of acknowledged + interrupted statement;
 the interrupted statement is retried, further statements must succeed, and a crash during that
 recovery (same hook, armed on the recovering open) must recover to the same state."""
+from sqlcase import is_conflict_text
 import os
 import random
 import shutil
@@ -177,7 +178,7 @@ def recover_and_judge(dirpath, layout, acked, both, inflight_sql, deep, tag):
             if inflight_sql and info["matched"] == "acked" and both is not None:
                 x = w.sql(inflight_sql)
                 for _ in range(4):
-                    if x["ok"] or "replaced by a concurrent compaction" not in (x.get("err") or ""):
+                    if x["ok"] or not is_conflict_text(x.get("err")):
                         break
                     x = w.sql(inflight_sql)   # conflict with the compaction pass that runs right after open
                 if not x["ok"]:
